@@ -1,6 +1,7 @@
 package http
 
 import (
+	"bytes"
 	"context"
 	"encoding/json"
 	"expvar"
@@ -499,8 +500,25 @@ func (s *Server) handlePostTx(w http.ResponseWriter, r *http.Request) {
 
 	// TODO(fwd): Prevent halt lock release during copy & apply.
 
+	// A forwarded transaction always continues this node's position.
+	// WriteLTXFileAt exempts files that start at TXID 1 from that check because
+	// restoring from a backup relies on them; accepted here, such a file would
+	// replace the database and move the position anywhere.
+	hdrBuf := make([]byte, ltx.HeaderSize)
+	var hdr ltx.Header
+	if _, err := io.ReadFull(r.Body, hdrBuf); err != nil {
+		Error(w, r, fmt.Errorf("write ltx file: read ltx header: %s", err), http.StatusInternalServerError)
+		return
+	} else if err := hdr.UnmarshalBinary(hdrBuf); err != nil {
+		Error(w, r, fmt.Errorf("write ltx file: decode ltx header: %s", err), http.StatusInternalServerError)
+		return
+	} else if pos := db.Pos(); hdr.MinTXID != pos.TXID+1 || hdr.PreApplyChecksum != pos.PostApplyChecksum {
+		Error(w, r, fmt.Errorf("write ltx file: transaction %s (pre-apply checksum %s) does not continue position %s", hdr.MinTXID.String(), hdr.PreApplyChecksum, pos), http.StatusInternalServerError)
+		return
+	}
+
 	// Wrap request body in a chunked reader.
-	ltxPath, err := db.WriteLTXFileAt(r.Context(), r.Body)
+	ltxPath, err := db.WriteLTXFileAt(r.Context(), io.MultiReader(bytes.NewReader(hdrBuf), r.Body))
 	if err != nil {
 		Error(w, r, fmt.Errorf("write ltx file: %s", err), http.StatusInternalServerError)
 		return
